@@ -59,7 +59,7 @@ INT_FORMS = ["({I} + {I})", "({I} // 3 + {I})", "({I} - {I} * {I})", "({I} if {B
 BOOL_FORMS = ["{I} < {I}", "{I} < {I} < {I}", "{I} <= {I} < {I} <= {I}", "({B} and {B})", "({B} or {B})",
               "({B} and {B} or {B})", "(not {B})", "({B} if {B} else {B})", "hb({I})", "{I} == {I}",
               "({B} and {I} < {I} < {I})"]
-INT_ATOMS = ["h0({k})", "a", "{k}"]
+INT_ATOMS = ["h0({k})", "a", "{k}", "xs[a]"]     # xs[a] panics (index out of bounds) for some inputs
 BOOL_ATOMS = ["hb({k})", "p", "hb({k} + 1)"]
 
 
@@ -146,9 +146,33 @@ def make_case(idx, kind, templ, ctxi, panic_at=None):
     ctxs = CONTEXTS_I if kind == "I" else CONTEXTS_B
     ctx = ctxs[ctxi % len(ctxs)]
     body = ctx.replace("{E}", e)
-    src = HEADER + f"\n@guppy\ndef main(a: int, b: int, p: bool) -> int:\n    {body}\n    return 0\n"
+    src = HEADER + f"\n@guppy\ndef main(a: int, b: int, p: bool) -> int:\n    xs = array(10, 20, 30)\n    {body}\n    return 0\n"
     return {"id": f"{kind}{idx}", "src": src, "entry": "main", "args": ARGS, "shape": templ, "expr": e,
             "scheds": ["min", "max", "rand:1", "rand:2"]}
+
+
+def _fallible_operand_before_built_early(expr: str) -> bool:
+    """Call-site class of a recorded finding: a call-free operand that can panic (`xs[a]`) is an operand of a
+    call / arithmetic / tuple node (not of a comparison chain) and a LATER operand of the same node contains a
+    conditional, short-circuit, chained-comparison or walrus expression, which the CFG builder evaluates first."""
+    import ast as _ast
+
+    def built_early(n):
+        return any(isinstance(x, (_ast.IfExp, _ast.BoolOp, _ast.NamedExpr)) or
+                   (isinstance(x, _ast.Compare) and len(x.comparators) > 1) for x in _ast.walk(n))
+
+    def fallible_no_call(n):
+        return any(isinstance(x, _ast.Subscript) for x in _ast.walk(n)) and not any(isinstance(x, _ast.Call) for x in _ast.walk(n))
+
+    tree = _ast.parse(expr, mode="eval")
+    for node in _ast.walk(tree):
+        if isinstance(node, _ast.Compare):
+            continue
+        ops = [c for c in _ast.iter_child_nodes(node) if isinstance(c, _ast.expr)]
+        for i, o in enumerate(ops):
+            if fallible_no_call(o) and any(built_early(l) for l in ops[i + 1:]):
+                return True
+    return False
 
 
 def build_cases(ctx):
@@ -202,7 +226,12 @@ def run(ctx):
         elif kind == "mismatch":
             # call-site class of the finding: subscripting a value that is not a place (`array(..)[i]`)
             # compiles the index before the subscripted value (visit_SubscriptAccessAndDrop)
-            key = "site:subscript-of-rvalue:index-before-value" if ")[" in c["expr"] else f"shape:{c['shape']}"
+            if ")[" in c["expr"]:
+                key = "site:subscript-of-rvalue:index-before-value"
+            elif _fallible_operand_before_built_early(c["expr"]) and d.get("got", [None])[0] == "panic":
+                key = "site:fallible-subscript-operand-before-built-early-operand"
+            else:
+                key = f"shape:{c['shape']}"
             ctx.violation(key, f"evaluation order/count differs from Python for `{c['expr']}`: {json.dumps(d)[:500]}",
                           {"case": c, "detail": d})
         elif kind == "spec-vs-python":
